@@ -93,6 +93,32 @@ theorem C13_sites_agree (o : Opts) (c : Nat) (f : FI) (v : PVal)
   · cases v <;> simp [fieldD, anything, h, serFieldAtom, serLeaf]
   · cases v <;> simp_all [fieldD, anything, isAtom]
 
+/-- **C13_instance_by_fields**: what makes a value an attrs instance for the conversion is that it has a field
+    list (`has(type(v))`, resolved through the MRO) — the model takes nothing else from the class: at both sites
+    (`_asdict_anything` and `asdict`'s own branch for a field value) and for `astuple` (field value and member),
+    two instances with the same fields convert alike whatever their classes are (a decorated class, a plain
+    subclass of one, a dict class over a slotted one, …); without serializer, which is told the class. -/
+theorem C13_instance_by_fields (o : Opts) (hs : o.ser = .off) (c c' : Nat) (h h' : Option Nat)
+    (fs : List (FI × PVal)) (isKey : Bool) (k : Nat) (f : FI) (flt : Filter) :
+    anything o isKey (.inst c h fs) = anything o isKey (.inst c' h' fs) ∧
+    fieldD o k f (.inst c h fs) = fieldD o k f (.inst c' h' fs) ∧
+    tfield o flt (.inst c h fs) = tfield o flt (.inst c' h' fs) ∧
+    tmember o flt (.inst c h fs) = tmember o flt (.inst c' h' fs) := by
+  have key : ∀ fs : List (FI × PVal), fieldsD o c fs = fieldsD o c' fs := by
+    intro fs
+    induction fs with
+    | nil => rfl
+    | cons p r ih =>
+      obtain ⟨g, v⟩ := p
+      have hv : fieldD o c g v = fieldD o c' g v := by
+        cases v <;> simp [fieldD, hs, serFieldAtom]
+      simp [fieldsD, ih, hv]
+  refine ⟨?_, ?_, ?_, ?_⟩
+  · simp [anything, key]
+  · simp [fieldD, hs, key]
+  · simp [tfield]
+  · simp [tmember]
+
 /-! ## Keys -/
 
 /-- **C13_keys**: the keys of `asdict(inst)` are the names of the filter-passing fields, in field order
